@@ -55,14 +55,20 @@ var intReaders = func() []intReader {
 				return new(big.Int).SetUint64(v), p, e
 			}},
 		{"ReadInt32", true, big.NewInt(math.MinInt32), big.NewInt(math.MaxInt32),
-			func(w []byte) (*big.Int, int, error) { v, p, e := rjson.ReadInt32(w); return big.NewInt(int64(v)), p, e },
+			func(w []byte) (*big.Int, int, error) {
+				v, p, e := rjson.ReadInt32(w)
+				return big.NewInt(int64(v)), p, e
+			},
 			func(w []byte) (*big.Int, int, error) {
 				var v int32 = 5
 				p, e := rjson.DecodeInt32(w, &v)
 				return big.NewInt(int64(v)), p, e
 			}},
 		{"ReadUint32", false, big.NewInt(0), big.NewInt(math.MaxUint32),
-			func(w []byte) (*big.Int, int, error) { v, p, e := rjson.ReadUint32(w); return big.NewInt(int64(v)), p, e },
+			func(w []byte) (*big.Int, int, error) {
+				v, p, e := rjson.ReadUint32(w)
+				return big.NewInt(int64(v)), p, e
+			},
 			func(w []byte) (*big.Int, int, error) {
 				var v uint32 = 5
 				p, e := rjson.DecodeUint32(w, &v)
